@@ -20,7 +20,7 @@ RULE = ("coolers with n=4 (quick) / 4 and 5 (thorough) bins in two chromosomes, 
         "a missing column raises. Non-trivial: the window holds >=1 stored element and row range != column range or a NaN inside. "
         "Distinct by construction.")
 BOUNDS = {"quick": "n=4: all 16 NaN subsets x full matrix x both modes x 10 (balance, divisive) combinations x dense + (sparse | pixels alternating by subset parity) + joined pixels; 2 more matrices with 4 NaN subsets",
-          "thorough": "n=4 and n=5: all NaN subsets x 3 matrices x both modes"}
+          "thorough": "n=4: all 16 NaN subsets x 3 matrices x both modes x the full 18 (balance, divisive) product x all 4 outputs; n=5: all 32 NaN subsets on the full matrix (8 subsets on 2 more matrices) x 10 combinations x all 4 outputs"}
 ASSUMPTIONS = ["weights are dyadic so products are exact up to 1e-12 relative", "pixels+join (13 ms per query) only on 12 windows per file"]
 EXPECT_CLASSES = {"*": ["win:above", "win:below", "win:diag-square", "win:overlap-upper", "bal:True", "bal:KR", "bal:missing", "out:dense", "out:sparse", "out:pixels", "dump"]}
 
@@ -66,9 +66,9 @@ def units(tier):
         for symm in (True, False):
             for mask in range(1 << n):
                 yield {"leg": "api", "n": n, "symm": symm, "mat": "full", "mask": mask, "full": True}
-                if th or mask in (0, 1, 0b0110, (1 << n) - 1):
+                if (th and (n == 4 or mask % 4 == 1)) or mask in (0, 1, 0b0110, (1 << n) - 1):
                     for mat in ("checker", "sparse3"):
-                        yield {"leg": "api", "n": n, "symm": symm, "mat": mat, "mask": mask, "full": th}
+                        yield {"leg": "api", "n": n, "symm": symm, "mat": mat, "mask": mask, "full": th and n == 4}
     for symm in (True, False):
         for mask in (0, 0b0010, 0b1001):
             yield {"leg": "dump", "symm": symm, "mask": mask}
@@ -104,7 +104,7 @@ def _api(R, unit, only, tier="quick"):
                     (0, 3, 1, n), (1, n, 0, 3), (n - 1, n, 0, n), (0, n, n - 1, n)}
         combos = ([(True, None), (True, True), ("weight", False), ("KR", None), ("KR", False), ("VC", None), ("VC", True), ("custom", None),
                    ("custom", True), ("missing", None)] if unit["full"] else [(True, None), ("KR", None), ("missing", None)])
-        if tier == "thorough" and unit["full"]:
+        if tier == "thorough" and unit["full"] and n == 4:
             combos = [(b, d) for b in (True, "weight", "KR", "VC", "custom", "missing") for d in (None, True, False)]
         outs = ("dense", "sparse", "pixels", "pixels+join") if tier == "thorough" else \
             (("dense", "sparse", "pixels+join") if mask % 2 == 0 else ("dense", "pixels", "pixels+join"))
